@@ -39,6 +39,10 @@ fn run_scenario(out: &mut TraceOut, family: &str, seed: u64, idx: u64, heavy: bo
     io::reset(with_idx(&scheds.0), with_idx(&scheds.1), None);
     let mut r = rng(seed, family_stream(family).wrapping_add(idx.wrapping_mul(7919)));
     out.begin(&format!("{}/{}/{}", family, seed, idx));
+    files::SCN_IDX.with(|c| c.set(idx));
+    files::ALLOW_FOREIGN.with(|c| {
+        c.set(matches!(family, "seeks" | "history" | "ranges" | "prefixes" | "seeks_v1" | "history_v1" | "iters_v1"))
+    });
     match family {
         "roundtrip" => cursor::scn_roundtrip(out, &mut r, idx, heavy, 2),
         "roundtrip_v1" => cursor::scn_roundtrip(out, &mut r, idx, heavy, 1),
